@@ -14,7 +14,9 @@ Inductive fcall :=
 (* Collection.Pull without backpressure, its consumer taking nothing until every call has returned
    and draining then; what it receives depends on mergeCollectionExcess (C09) and is judged by the
    fold oracle only *)
-| FSubCL (ro : fro).
+| FSubCL (ro : fro)
+(* Collection.PullID: returns at once; its goroutine opens the inner Pull in a step of its own *)
+| FSubID (id : string) (ro : fro).
 
 (* what a call returned: message (nil = None) and gRPC code (0 = no error) *)
 Record fout := mkFO { fo_msg : option fmsg; fo_code : Z }.
@@ -27,6 +29,7 @@ Inductive ccase :=
             (prog : list fcall) (sched : list nat)
             (results : list fout) (final_v : option fmsg) (final_c : list (string * fmsg))
             (vstreams : list (nat * list ovchange)) (cstreams : list (nat * list ochange))
+            (closed : list nat)     (* PullID threads whose channel had been closed by the time of the sentinel *)
 (* a free-running history: call, invocation stamp, response stamp, result *)
 | CaseHist (idf : option idf) (vinit : option fmsg) (cinit : list (string * fmsg * Z))
            (hist : list (fcall * Z * Z * fout)) (final_v : option fmsg) (final_c : list (string * fmsg)).
@@ -43,6 +46,7 @@ Definition to_call (c : fcall) : lcall :=
   | FDelete id o => @CDelete fmsg fwriter (list fld) id (to_wopts None o)
   | FSubV ro => @CSubV fmsg fwriter (list fld) (to_ropts ro)
   | FSubC ro | FSubCL ro => @CSubC fmsg fwriter (list fld) (to_ropts ro)
+  | FSubID id ro => @CSubID fmsg fwriter (list fld) id (to_ropts ro)
   end.
 
 Definition init_v (vinit : option fmsg) : vstate fmsg := mkV vinit (fclock 0) 1.
@@ -81,6 +85,9 @@ Definition cstream_of (u : csub fmsg (list fld)) : list (cchange fmsg) :=
 
 Definition final_list (c : cstate fmsg) : list (string * fmsg) := c_list fr_filter c None None.
 
+Definition pull_id_of (t : nat) (prog : list fcall) : option string :=
+  match nth_error prog t with Some (FSubID id _) => Some id | _ => None end.
+
 Definition is_lossy (t : nat) (prog : list fcall) : bool :=
   match nth_error prog t with Some (FSubCL _) => true | _ => false end.
 
@@ -89,20 +96,31 @@ Definition model_v0 := false.
 
 Definition agrees (c : ccase) : bool :=
   match c with
-  | CaseSched i vinit cinit prog sched results fv fc vstreams cstreams =>
+  | CaseSched i vinit cinit prog sched results fv fc vstreams cstreams closed =>
       let s := f_run model_v0 i prog sched vinit cinit in
       (Nat.eqb (st_stutter s) 0) && all_done s &&
       list_match pc_matches (st_pcs s) results &&
       ofm_eqb (v_val (w_v (st_w s))) fv &&
       list_eqb kv_eqb (final_list (w_c (st_w s))) fc &&
-      (Nat.eqb (List.length (st_vsubs s)) (List.length vstreams)) &&
-      (Nat.eqb (List.length (st_csubs s)) (List.length cstreams)) &&
+      (Nat.eqb (List.length (st_vsubs s) + List.length (st_csubs s)) (List.length vstreams + List.length cstreams)) &&
       forallb (fun u => match assoc_nat (vs_tid u) vstreams with
                         | Some obs => list_match vc_matches (vstream_of u) obs
                         | None => false end) (st_vsubs s) &&
-      forallb (fun u => match assoc_nat (cs_tid u) cstreams with
-                        | Some obs => is_lossy (cs_tid u) prog || list_match cc_matches (cstream_of u) obs
-                        | None => false end) (st_csubs s)
+      forallb (fun u =>
+                 match pull_id_of (cs_tid u) prog with
+                 | Some id =>
+                     (* PullID: the collection stream restricted to the id, ended by its removal *)
+                     let '(vs, cl) := pull_id_from (apply_id (idfun_of i) id) (cstream_of u) in
+                     match assoc_nat (cs_tid u) vstreams with
+                     | Some obs => list_match vc_matches vs obs && Bool.eqb cl (existsb (Nat.eqb (cs_tid u)) closed)
+                     | None => false
+                     end
+                 | None =>
+                     match assoc_nat (cs_tid u) cstreams with
+                     | Some obs => is_lossy (cs_tid u) prog || list_match cc_matches (cstream_of u) obs
+                     | None => false
+                     end
+                 end) (st_csubs s)
   | CaseHist _ _ _ _ _ _ => true      (* no schedule to compare: judged by the oracle alone *)
   end.
 
@@ -111,7 +129,7 @@ Definition agrees (c : ccase) : bool :=
 Record hcall := mkH { h_call : fcall; h_inv : Z; h_resp : Z; h_out : fout }.
 
 Definition is_write_call (c : fcall) : bool :=
-  match c with FSubV _ | FSubC _ | FSubCL _ => false | _ => true end.
+  match c with FSubV _ | FSubC _ | FSubCL _ | FSubID _ _ => false | _ => true end.
 
 (* Aborted from Set/Update and Unavailable from Delete: the call lost a race and must have had no
    effect.  (The generated checks never return these codes themselves.) *)
@@ -183,7 +201,7 @@ Fixpoint hist_of (t : nat) (prog : list fcall) (results : list fout) (sched : li
 
 Definition C02_ok (c : ccase) : bool :=
   match c with
-  | CaseSched i vinit cinit prog sched results fv fc _ _ =>
+  | CaseSched i vinit cinit prog sched results fv fc _ _ _ =>
       linearizable_b i vinit cinit (hist_of 0 prog results sched) fv fc
   | CaseHist i vinit cinit hist fv fc =>
       linearizable_b i vinit cinit (map (fun p => mkH (fst (fst (fst p))) (snd (fst (fst p))) (snd (fst p)) (snd p)) hist) fv fc
@@ -217,12 +235,28 @@ Fixpoint sub_ro (t : nat) (prog : list fcall) : option (bool * fro) :=
   | _ :: r, S t' => sub_ro t' r
   end.
 
+(* PullID: unless its channel was closed (the item was removed), the last value delivered is the
+   item's final masked value, and nothing was delivered for an item that is absent at the end *)
+Definition pid_ok (id : string) (ro : fro) (stream : list ovchange) (is_closed : bool) (fc : list (string * fmsg)) : bool :=
+  is_closed ||
+  match rev stream with
+  | o :: _ => ofm_eqb (Some (ov_value o)) (option_map (mask_of ro) (view_lookup id fc))
+  | [] => r_updates_only ro || match view_lookup id fc with None => true | Some _ => false end
+  end.
+
+Definition pid_ro (t : nat) (prog : list fcall) : option (string * fro) :=
+  match nth_error prog t with Some (FSubID id ro) => Some (id, ro) | _ => None end.
+
 Definition C03_ok (c : ccase) : bool :=
   match c with
-  | CaseSched i vinit cinit prog sched results fv fc vstreams cstreams =>
-      forallb (fun p => match sub_ro (fst p) prog with
-                        | Some (true, ro) => vview_ok ro (snd p) fv
-                        | _ => false end) vstreams &&
+  | CaseSched i vinit cinit prog sched results fv fc vstreams cstreams closed =>
+      forallb (fun p => match pid_ro (fst p) prog with
+                        | Some (id, ro) => pid_ok (apply_id (idfun_of i) id) ro (snd p) (existsb (Nat.eqb (fst p)) closed) fc
+                        | None =>
+                            match sub_ro (fst p) prog with
+                            | Some (true, ro) => vview_ok ro (snd p) fv
+                            | _ => false end
+                        end) vstreams &&
       forallb (fun p => match sub_ro (fst p) prog with
                         | Some (false, ro) => cview_ok ro (snd p) fc
                         | _ => false end) cstreams
@@ -233,7 +267,7 @@ Definition C03_ok (c : ccase) : bool :=
    Update publish after releasing the lock) — decided on the model's run of the schedule *)
 Definition reordered_class (c : ccase) : option Z :=
   match c with
-  | CaseSched i vinit cinit prog sched _ _ _ _ _ =>
+  | CaseSched i vinit cinit prog sched _ _ _ _ _ _ =>
       if st_reordered (f_run model_v0 i prog sched vinit cinit) then Some 1 else None
   | _ => None
   end.
@@ -244,7 +278,7 @@ Definition judge03 (c : ccase) : Z := verdict (agrees c) (C03_ok c) (reordered_c
 (* the pinned commit's create path, for replaying the two-Adds witness *)
 Definition agrees_v0 (c : ccase) : bool :=
   match c with
-  | CaseSched i vinit cinit prog sched results fv fc _ _ =>
+  | CaseSched i vinit cinit prog sched results fv fc _ _ _ =>
       let s := f_run true i prog sched vinit cinit in
       (Nat.eqb (st_stutter s) 0) && all_done s && list_match pc_matches (st_pcs s) results &&
       ofm_eqb (v_val (w_v (st_w s))) fv && list_eqb kv_eqb (final_list (w_c (st_w s))) fc
@@ -254,7 +288,7 @@ Definition agrees_v0 (c : ccase) : bool :=
 (* debugging aid *)
 Definition debug_case (c : ccase) :=
   match c with
-  | CaseSched i vinit cinit prog sched results fv fc vstreams cstreams =>
+  | CaseSched i vinit cinit prog sched results fv fc vstreams cstreams _ =>
       let s := f_run model_v0 i prog sched vinit cinit in
       Some (st_stutter s, st_pcs s, v_val (w_v (st_w s)), final_list (w_c (st_w s)),
             map vstream_of (st_vsubs s), map cstream_of (st_csubs s))
